@@ -34,7 +34,7 @@ func (c16) Describe() engine.Info {
 		Rule: "scenario = MBC1 cartridge (8 ROM pages, 4 RAM banks, RAM enabled) with random contents everywhere + FF46 write with page XX (every page 00-F1 enumerated by index, then random) + 0..3 restarts (same or other page) at random cycles of the running transfer + 0..4 source-byte writes / ROM or RAM bank switches during the transfer; OAM is read over the bus at three addresses (FE00-FE9F and FEA0-FEFF) after every cycle. " +
 			"Oracle: 162 cycles after the last start OAM holds, byte for byte, a value the source byte had during that transfer; reads of FE00-FEFF return FF from cycle 2 to 160 of a running transfer (0, 1, 161: either) and data / 00 afterwards; nothing else changes OAM. Signature = (source region, restarted?, restart phase class, source changed during transfer?).",
 		Assumptions:    []string{"LCD off (OAM otherwise plain) in two thirds of the scenarios; in the others the LCD is on, OAM is read only while the transfer blocks it, and the result is judged through the side-effect-free accessor; the CPU is parked in high RAM", "a source byte changed while the copy runs may be copied old or new"},
-		RequiredProbes: []string{"oam_read_during_transfer_in_mode2", "dma_started", "dma_restarted_while_running", "source_changed_during_transfer", "oam_read_during_transfer", "echo_source"},
+		RequiredProbes: []string{"lcd_switched_during_transfer", "oam_read_during_transfer_in_mode2", "dma_started", "dma_restarted_while_running", "source_changed_during_transfer", "oam_read_during_transfer", "echo_source"},
 		RealComponents: realComponents, StubComponents: stubComponents,
 		Sweeps: []string{"every source page 00-F1 (indices 0..241)"},
 	}
@@ -67,7 +67,11 @@ func (c16) Generate(r *engine.Rand, index int, tier string) *engine.Scenario {
 	// disturbances during the (last) transfer
 	for i, n := 0, r.Intn(5); i < n; i++ {
 		t := last + uint64(r.Range(1, 165))
-		switch r.Intn(4) {
+		switch r.Intn(5) {
+		case 4:
+			// the LCD is switched (off or on, or LCDC rewritten) while the transfer runs: the DMA engine
+			// finishes its copy and keeps OAM blocked meanwhile all the same
+			sc.Events = append(sc.Events, engine.Event{At: t, K: "bus_w", A: 0xff40, V: engine.Pick(r, []uint8{0x11, 0x91, 0x00, 0x93, 0x80}), S: "lcdc"})
 		case 0:
 			sc.Events = append(sc.Events, engine.Event{At: t, K: "bus_w", A: 0x2000 + uint16(r.Intn(0x2000)), V: r.Byte(), S: "rombank"})
 		case 1:
@@ -294,6 +298,13 @@ func (c16) Execute(sc *engine.Scenario) *engine.Result {
 				snapshot()
 				res.Probe("dma_started")
 				res.Fault("dma_start")
+			case "lcdc":
+				now := ev.V&0x80 != 0
+				if running && now != lcdOn {
+					res.Probe("lcd_switched_during_transfer")
+				}
+				lcdOn = now
+				res.Fault("lcdc_write")
 			case "rombank", "bank2":
 				ct.Write(ev.A, ev.V)
 				if running {
